@@ -31,4 +31,4 @@ ASSUMPTIONS = [
 def run(ctx):
     if not ctx.replay:
         ctx.mc('MC_Transpile', 'MC_Transpile', timeout=600, coverage=False)
-    T.run_property(ctx, 'f2py', T.f2py_transform, T.f2py_execute, CORE, POOLS, QUICK, THOROUGH, ASSUMPTIONS)
+    T.run_property(ctx, 'f2py', T.f2py_transform, T.f2py_execute_batch, CORE, POOLS, QUICK, THOROUGH, ASSUMPTIONS)
